@@ -51,7 +51,7 @@ def profile():
     p.funcs = set(SQL_FUNCS)
     p.columns = dict(scalar.SCHEMA, dd="date")
     p.types = {"int", "float", "str", "bool", "datetime", "date"}
-    p.null_left = False
+    p.null_left = True
     return p
 
 
@@ -189,13 +189,19 @@ def analyse(ctx, astnode, term, sql, events, alias):
         elif cn == "Compare":
             op = decode(node)[1]
             label = CMP_SQL[op]
-            if isinstance(node.right, ast.Null) and op in ("eq", "ne"):
+            null_side = isinstance(node.right, ast.Null) or isinstance(node.left, ast.Null)
+            if null_side and op in ("eq", "ne"):
                 label = "IS" if op == "eq" else "IS NOT"
             ok = [r for r in roots if r[0] == "cmp" and r[1] == label]
             if pnodes and not ok:
                 probs.append("(c) comparison %s is not a %s node in the SQL" % (op, label))
             for r in ok[:1]:
-                check_children(node.left, node.right, r)
+                if isinstance(node.left, ast.Null) and not isinstance(node.right, ast.Null) \
+                        and op in ("eq", "ne"):
+                    # the null test is symmetric: `null eq x` may be emitted as `x IS NULL`
+                    check_children(node.right, node.left, r)
+                else:
+                    check_children(node.left, node.right, r)
         elif cn == "BoolOp":
             kind = "and" if isinstance(node.op, ast.And) else "or"
             if pnodes:
